@@ -29,6 +29,9 @@
 // Concurrent sessions: sessions_test.go (every result of concurrently parsing goroutines must be
 // the verdict of the same text parsed alone).
 //
+// Held payloads: heldwire_test.go (node sessions that keep marshalled payloads and decoded statements
+// while further statements are marshalled / unmarshalled / planned, on one goroutine and on several).
+//
 // Determinism of sql.Parse: the same text is parsed twice (and a third time after the pooled
 // lexer/parser went through a rejected text) and the results must be equal. Query.TimeRange
 // reads the wall clock when a bound is missing or written with now(); the generator knows for
